@@ -550,7 +550,7 @@ def fx_partial(fx):
     from rules import partial
     c = _ctx()
     n = partial.run(c, fx, ["src/lib.rs"], only=lambda fid: "partialfx::" in fid)
-    return n == 3 and _fires(c, "bad_flush") and not _fires(c, "ok_flush") and not _fires(c, "drain_to")
+    return n == 4 and _fires(c, "bad_flush") and not _fires(c, "ok_flush") and not _fires(c, "drain_to")
 
 
 def fx_openguard(fx):
